@@ -421,6 +421,76 @@ def shard_local(cfg):
     return res
 
 
+class _Rec:
+    """wraps a real discretisation: records (time, copy of the data) of every field handed to rhs (forward Euler: one per step, the state Q_k)"""
+
+    def __init__(self, disc):
+        self._d = disc
+        self.log = []
+
+    def rhs(self, f):
+        self.log.append((float(np.ravel(f.time)[0]), [np.asarray(d, float).copy() for d in f.data]))
+        return self._d.rhs(f)
+
+    def __getattr__(self, k):
+        return getattr(self._d, k)
+
+
+def eval_legacy(kind, par, idx, wv, res=None):
+    """the older driver solve_legacy: every step it takes is the minimum over cells of the CFL steps of the CURRENT state (shorter only to land on a
+    save time), observed through the states handed to the space operator by forward Euler"""
+    out = []
+    model = space.make_model((kind, par) if kind != "burgers" else (kind,))
+    al = _alpha(kind, par)
+    m = space.mesh_from_widths(wv, 0.0)
+    flux = {"euler1d": "hllc", "shallowwater": "hll"}.get(kind)
+    data = [np.array([al[i][k] for i in idx]) for k in range(model.neq)]
+    cfl = 0.4
+    d = space.modeldisc.fvm(model, m, space.xnum.extrapol1(), numflux=flux)
+    f0 = space.field.fdata(model, m, [x.copy() for x in data])
+    with np.errstate(all="ignore"):
+        dt0 = float(np.min(d.calc_timestep(f0, cfl)))
+    if not np.isfinite(dt0):
+        return out
+    rec = _Rec(d)
+    ts = [3.3 * dt0, 7.6 * dt0]
+    try:
+        with np.errstate(all="ignore"), core.time_limit(20.0):
+            space.integ.explicit(m, rec).solve_legacy(f0, cfl, ts)
+    except core.CallTimeout:
+        return [("C18/driver/solve_legacy/non-termination", "%s data %r: solve_legacy did not return" % (kind, idx), 0)]
+    if res is not None:
+        res.evals += len(rec.log)
+        res.transitions += 1
+    for k in range(len(rec.log) - 1):
+        (t0, q0), (t1, _) = rec.log[k], rec.log[k + 1]
+        if not all(np.all(np.isfinite(x)) for x in q0):
+            break
+        with np.errstate(all="ignore"):
+            want = float(np.min(d.calc_timestep(space.field.fdata(model, m, [x.copy() for x in q0]), cfl)))
+        inc = t1 - t0
+        landed = any(abs(t1 - s_) <= 4 * EPS * abs(s_) for s_ in ts)
+        ok = abs(inc - want) <= 8 * EPS * max(abs(t1), want) or (landed and inc <= want * (1 + 8 * EPS))
+        if not ok:
+            out.append(("C18/driver/solve_legacy/step-is-min-over-cells-of-the-current-state", "%s %r data %r widths %r: iteration %d of solve_legacy advanced time by %r, min dt(Q_%d) = %r" % (
+                kind, par, idx, wv, k + 1, inc, k, want), 0))
+            break
+    return out
+
+
+def shard_legacy(cfg):
+    kind, par = cfg
+    res = core.Res()
+    for wv in ((1.0, 1.0, 1.0), (0.5, 2.0, 1.0)):
+        for idx in itertools.product(range(4), repeat=3):
+            if len(set(idx)) == 1:
+                continue
+            res.nontrivial += 1
+            for s, w, i in eval_legacy(kind, par, idx, wv, res):
+                res.violation(s, w, {"kind": "legacy", "cfg": [kind, par, list(idx), list(wv)]})
+    return res
+
+
 def shard_implicit_local(arg):
     """with the directive, the implicit classes advance EVERY UNKNOWN OF A CELL by that cell's own step: one and two steps with the per-cell array
     against the theta (BDF2) system with D^-1 = diag(1/dt_cell) repeated over the equations of the cell, linearised with a reference Jacobian of
@@ -482,6 +552,7 @@ def run(ctx):
                     block.append((iname, kind, par, idx, wv))
             drv.append(block if th else block[::3])
     ctx.pmap("driver", shard_driver, drv)
+    ctx.pmap("driver-solve_legacy", shard_legacy, [("euler1d", 1.4), ("shallowwater", 9.81), ("burgers", None)])
     ctx.pmap("implicit-classes-with-local-steps", shard_implicit_local, [("euler1d", ("euler1d", 1.4), "hllc", "extrapol1"), ("euler1d", ("euler1d", 1.4), "hlle", "muscl:vanleer"),
                                                                          ("shallowwater", ("shallowwater", 9.81), "hll", "extrapol1"), ("burgers", ("burgers",), None, "extrapol2")])
 
@@ -491,6 +562,9 @@ def replay(case):
     if k == "point":
         cfg = tuple(case["cfg"])
         return [(s, w) for s, w, i in eval_pointwise(cfg) if i == case["index"]]
+    if k == "legacy":
+        c = case["cfg"]
+        return [(s, w) for s, w, i in eval_legacy(c[0], c[1], tuple(c[2]), tuple(c[3]))]
     if k == "impl":
         from . import c06
         a = case["arg"]
